@@ -56,7 +56,7 @@ def run(ctx, V):
             V.violation("protocol", "client-stream", w, "Spec.Proto.ok_prefix rejects what client %d received" % k)
         elif not dropped and sess.alive_after_script and not sess.wedged and not sess.overrun and v["ok"] != "true":
             V.violation("protocol", "client-stream", w, "client %d was served to the end but its stream is not a sequence of whole protocol tokens (Spec.Proto.ok)" % k)
-    C06.correspond(ctx, V, n=150 if ctx.tier == "quick" else 3000)
+    C06.correspond(ctx, V, n=300 if ctx.tier == "quick" else 6000)
 
 
 def replay(ctx, V, path):
